@@ -160,13 +160,109 @@ def boundary_in_pixel(d, ix, iy, nsamp=3000, refine=400):
     return total + 8 * fine_max, max(pieces, 1)
 
 
+# ----------------------------------------------------------------- rectangles and (simple) polygons
+
+def poly_vertices(d):
+    """exact vertices (Fractions) of a rectangle or polygon desc."""
+    if d['kind'] == 'polygon':
+        return [(Fraction(float(x)), Fraction(float(y))) for x, y in d['v']]
+    c, s = G.exact_dir(d['angle'])
+    cx, cy = Fraction(float(d['c'][0])), Fraction(float(d['c'][1]))
+    w2, h2 = Fraction(float(d['w'])) / 2, Fraction(float(d['h'])) / 2
+    return [(cx + c * a - s * b, cy + s * a + c * b) for (a, b) in ((-w2, -h2), (w2, -h2), (w2, h2), (-w2, h2))]
+
+
+def clip_poly(vs, x0, x1, y0, y1):
+    """Sutherland-Hodgman: polygon ∩ [x0,x1]x[y0,y1] (exact rationals)."""
+    def clip(pts, inside, inter):
+        out = []
+        for k in range(len(pts)):
+            a, b = pts[k - 1], pts[k]
+            ia, ib = inside(a), inside(b)
+            if ib:
+                if not ia:
+                    out.append(inter(a, b))
+                out.append(b)
+            elif ia:
+                out.append(inter(a, b))
+        return out
+    def ix(xc):
+        return lambda a, b: (xc, a[1] + (b[1] - a[1]) * (xc - a[0]) / (b[0] - a[0]))
+    def iy(yc):
+        return lambda a, b: (a[0] + (b[0] - a[0]) * (yc - a[1]) / (b[1] - a[1]), yc)
+    pts = list(vs)
+    for inside, inter in ((lambda q: q[0] >= x0, ix(x0)), (lambda q: q[0] <= x1, ix(x1)),
+                          (lambda q: q[1] >= y0, iy(y0)), (lambda q: q[1] <= y1, iy(y1))):
+        if not pts:
+            break
+        pts = clip(pts, inside, inter)
+    return pts
+
+
+def poly_pixel_area(vs, ix, iy):
+    h = Fraction(1, 2)
+    pts = clip_poly(vs, ix - h, ix + h, iy - h, iy + h)
+    a = sum(pts[k - 1][0] * pts[k][1] - pts[k][0] * pts[k - 1][1] for k in range(len(pts))) / 2 if pts else Fraction(0)
+    return abs(a)
+
+
+def poly_boundary_in_pixel(vs, ix, iy):
+    """(length of the polygon's edges inside the closed pixel, number of edge pieces) — Liang-Barsky per edge."""
+    h = Fraction(1, 2)
+    x0, x1, y0, y1 = ix - h, ix + h, iy - h, iy + h
+    total, pieces = 0.0, 0
+    for k in range(len(vs)):
+        (ax, ay), (bx, by) = vs[k - 1], vs[k]
+        dx, dy = bx - ax, by - ay
+        t0, t1 = Fraction(0), Fraction(1)
+        ok = True
+        for pp, qq in ((-dx, ax - x0), (dx, x1 - ax), (-dy, ay - y0), (dy, y1 - ay)):
+            if pp == 0:
+                if qq < 0:
+                    ok = False
+                    break
+            else:
+                t = qq / pp
+                if pp < 0:
+                    t0 = max(t0, t)
+                else:
+                    t1 = min(t1, t)
+        if ok and t0 < t1:
+            total += float(t1 - t0) * math.hypot(float(dx), float(dy))
+            pieces += 1
+    return total, pieces
+
+
+def true_area_any(d, ix, iy):
+    if d['kind'] in ('rectangle', 'polygon'):
+        return float(poly_pixel_area(poly_vertices(d), ix, iy))
+    return float(true_pixel_area(d, ix, iy))
+
+
+def boundary_any(d, ix, iy):
+    if d['kind'] in ('rectangle', 'polygon'):
+        return poly_boundary_in_pixel(poly_vertices(d), ix, iy)
+    return boundary_in_pixel(d, ix, iy)
+
+
+def true_extent(d):
+    """a box (pixel indices, inclusive) that certainly holds every pixel the shape touches."""
+    if d['kind'] in ('rectangle', 'polygon'):
+        vs = poly_vertices(d)
+        xs, ys = [float(v[0]) for v in vs], [float(v[1]) for v in vs]
+        return (math.floor(min(xs) + 0.5), math.floor(max(xs) + 0.5), math.floor(min(ys) + 0.5), math.floor(max(ys) + 0.5))
+    cx, cy = float(d['c'][0]), float(d['c'][1])
+    r = float(d['r']) if d['kind'] == 'circle' else max(float(d['w']), float(d['h'])) / 2
+    return (math.floor(cx - r + 0.5), math.floor(cx + r + 0.5), math.floor(cy - r + 0.5), math.floor(cy + r + 0.5))
+
+
 class Check(PropertyCheck):
     id = 'C03'
     lean_targets = ['RegionsVerif.Props.C03']
     namespaces = ['RegionsVerif.Props.C03']
     rule = ('circles and ellipses with radii / semi-axes 1e-3..1e3 pixels, axis ratios to 1:100, all angles, generic and half-integer '
             'centres; whole to_mask(exact) grids with up to ~56 sampled pixels each (boundary, interior, exterior) and single pixels; '
-            'sub-pixel convergence on circles/ellipses for n in {1,2,3,5,8,12}. Non-trivial = at least one sampled pixel strictly between 0 and 1.')
+            'sub-pixel convergence on circles/ellipses/rotated rectangles/simple polygons for n in {1,2,3,5,8,12,20}, sampled over the hull of the mask box and the true extent (pixels the mask does not cover count as 0). Non-trivial = at least one sampled pixel strictly between 0 and 1.')
     assumptions = ['the oracle is an independent closed-form integration (chord lengths integrated between breakpoints) evaluated with 50-60 digits; '
                    'it is validation, not proof',
                    'Float model vs compiled kernel: 1e-12 absolute (libm differences)',
@@ -210,6 +306,22 @@ class Check(PropertyCheck):
             else:
                 d = {'kind': 'ellipse', 'c': c, 'w': rng.uniform(1.5, 9.0), 'h': rng.uniform(1.0, 6.0), 'angle': G.rangle(rng), 'include': 'absent'}
             cases.append({'kind': 'converge/' + kind, 'region': d, 'pick': rng.randrange(1 << 30), 'n': rng.choice([1, 2, 3, 5, 8, 12])})
+        for _ in range(16 if tier == 'quick' else 500):
+            kind = rng.choice(['rectangle', 'polygon'])
+            c = [rng.uniform(-2, 2), rng.uniform(-2, 2)]
+            if kind == 'rectangle':
+                d = {'kind': 'rectangle', 'c': c, 'w': rng.uniform(1.0, 9.0), 'h': rng.uniform(0.8, 6.0), 'angle': G.rangle(rng), 'include': 'absent'}
+            else:
+                # a simple (star-shaped) polygon: vertices sorted by angle around the centre
+                k = rng.randint(3, 8)
+                angs = sorted(rng.uniform(0, 2 * math.pi) for _ in range(k))
+                d = {'kind': 'polygon', 'v': [[c[0] + rng.uniform(1.0, 5.0) * math.cos(a), c[1] + rng.uniform(1.0, 5.0) * math.sin(a)] for a in angs],
+                     'include': 'absent'}
+                # star-shapedness needs every angular gap < pi
+                gaps = [(angs[(q + 1) % k] - angs[q]) % (2 * math.pi) for q in range(k)]
+                if max(gaps) >= math.pi - 0.05:
+                    continue
+            cases.append({'kind': 'converge/' + kind, 'region': d, 'pick': rng.randrange(1 << 30), 'n': rng.choice([1, 2, 3, 5, 8, 12, 20])})
         return cases
 
     # ------------------------------------------------------------------ real
@@ -237,7 +349,16 @@ class Check(PropertyCheck):
         b = m.bbox
         box = [int(b.ixmin), int(b.ixmax), int(b.iymin), int(b.iymax)]
         px = self._sample_pixels(case, data, box)
+        outside = []
+        if case['kind'].startswith('converge'):
+            # pixels the shape touches but the mask does not cover are 0 in every use of the mask (to_image, cutout)
+            ex = true_extent(case['region'])
+            ring = [(x, y) for x in range(min(ex[0], box[0]), max(ex[1] + 1, box[1])) for y in range(min(ex[2], box[2]), max(ex[3] + 1, box[3]))
+                    if not (box[0] <= x < box[1] and box[2] <= y < box[3])]
+            import random
+            outside = random.Random(case['pick']).sample(ring, min(24, len(ring)))
         out = {'bbox': box, 'pixels': [[j, i, bits(data[j, i])] for (j, i) in px],
+               'outside': [[x, y] for (x, y) in outside],
                'finite': bool(np.isfinite(data).all()), 'min': float(data.min()) if data.size else 0.0,
                'max': float(data.max()) if data.size else 0.0, 'sum': float(data.sum()),
                'n_partial': int(((data > 0) & (data < 1)).sum()), 'area': float(reg.area)}
@@ -314,13 +435,14 @@ class Check(PropertyCheck):
                     break
         else:
             n = case['n']
-            for (j, i, vb) in real['pixels']:
-                v = unbits(vb)
-                t = float(true_pixel_area(d, box[0] + i, box[2] + j))
-                L, m = boundary_in_pixel(d, box[0] + i, box[2] + j)
+            samples = [(box[0] + i, box[2] + j, unbits(vb)) for (j, i, vb) in real['pixels']] + \
+                      [(x, y, 0.0) for (x, y) in real.get('outside', [])]
+            for (x, y, v) in samples:
+                t = true_area_any(d, x, y)
+                L, m = boundary_any(d, x, y)
                 bound = 4 * L / n + 4 * m / (n * n) + 1e-6
                 if abs(v - t) > bound:
-                    bad('subpixel_error_exceeds_bound', f'pixel ({box[0] + i},{box[2] + j}) n={n} value {v} true {t} L={L} bound={bound}')
+                    bad('subpixel_error_exceeds_bound', f'pixel ({x},{y}) n={n} value {v} true {t} L={L} bound={bound}')
                     break
         return V
 
